@@ -108,16 +108,18 @@ NextXform ==
    use a 3-letter alphabet (a case pair and a high-bit byte), one-operand functions a 7-letter one *)
 QAlpha2 == IF QA = 0 THEN {97, 233} ELSE {97, 65, 233}      \* QA: alphabet selector of the query scope
 QAlpha1 == {97, 65, 49, 32, 233, 102, 71}
+QAlphaNat == IF QA = 0 THEN {97, 49, 32} ELSE {97, 49, 48, 32}      \* natural order: letters, digits (a leading zero), white space
+QAlphaOf(fn) == IF fn \in NatFns THEN QAlphaNat ELSE QAlpha2
 RECURSIVE QStrs(_, _)
 QStrs(A, k) == IF k = 0 THEN {<<>>} ELSE LET S == QStrs(A, k - 1) IN S \cup {Append(x, c) : x \in {t \in S : Len(t) = k - 1}, c \in A}
-TwoOp(fn) == fn \in CmpFns \cup MemCmpFns \cup FindFns \cup SpanFns \cup IdxFns \cup {"strprefix_s"}
-QHasSlen(fn) == fn \in MemCmpFns \cup FindFns \cup SpanFns \cup {"wcscmp_s", "wcsncmp_s", "wcsicmp_s"}
-QWidth(fn) == IF fn \in {"wcscmp_s", "wcsncmp_s", "wcsicmp_s", "wcsstr_s", "wcsnlen_s", "wmemcmp_s", "memcmp32_s"} THEN 4 ELSE IF fn = "memcmp16_s" THEN 2 ELSE 1
+TwoOp(fn) == fn \in CmpFns \cup NatFns \cup MemCmpFns \cup FindFns \cup SpanFns \cup IdxFns \cup {"strprefix_s"}
+QHasSlen(fn) == fn \in MemCmpFns \cup FindFns \cup SpanFns \cup {"wcscmp_s", "wcsncmp_s", "wcsicmp_s", "wcsnatcmp_s", "wcsnaticmp_s"}
+QWidth(fn) == IF fn \in {"wcscmp_s", "wcsncmp_s", "wcsicmp_s", "wcsnatcmp_s", "wcsnaticmp_s", "wcsstr_s", "wcsnlen_s", "wmemcmp_s", "memcmp32_s"} THEN 4 ELSE IF fn = "memcmp16_s" THEN 2 ELSE 1
 NextQuery ==
   /\ st.f \in StrQueryFns
-  /\ \E dmax \in Sizes \cup {K + 1}, dstr \in (IF TwoOp(st.f) THEN QStrs(QAlpha2, K) ELSE QStrs(QAlpha1, 2)), dterm \in BOOLEAN,
+  /\ \E dmax \in Sizes \cup {K + 1}, dstr \in (IF TwoOp(st.f) THEN QStrs(QAlphaOf(st.f), K) ELSE QStrs(QAlpha1, 2)), dterm \in BOOLEAN,
         flags \in {0, 1} :
-     \E dbos \in BosChoices(dmax), sstr \in (IF TwoOp(st.f) THEN QStrs(QAlpha2, K) ELSE {<<>>}), sterm \in (IF TwoOp(st.f) THEN BOOLEAN ELSE {TRUE}),
+     \E dbos \in BosChoices(dmax), sstr \in (IF TwoOp(st.f) THEN QStrs(QAlphaOf(st.f), K) ELSE {<<>>}), sterm \in (IF TwoOp(st.f) THEN BOOLEAN ELSE {TRUE}),
         snull \in (IF TwoOp(st.f) THEN BOOLEAN ELSE {TRUE}),
         slen \in (IF QHasSlen(st.f) THEN Sizes \cup {K + 1} ELSE {0}),
         ch \in (IF st.f \in ChrFns THEN {97, 65, 233, 0, 300} ELSE {0}),
